@@ -257,7 +257,7 @@ def cli_case(rng, focus=None):
             kv["failevery"] = rng.choice([2, 3, 5])
     valid = not bad
     if "failevery" in kv and rng.random() < 0.5:
-        kv["failkind"] = rng.choice(["panicerr", "panicstr", "nilmap", "errorf"])
+        kv["failkind"] = rng.choice(["panicerr", "panicstr", "nilmap", "errorf", "errunhash", "panicunhash", "paniclong", "panicint", "timefail", "timeerr"])
     if rng.random() < 0.15:
         kv["combine"] = 1
     if rng.random() < 0.08:
@@ -356,7 +356,7 @@ def cli_case(rng, focus=None):
         if rng.random() < 0.2:
             kv["fdur"] = rng.choice([120, 180])      # the run ends inside a stage
         if "failevery" in kv and rng.random() < 0.5:
-            kv["failkind"] = rng.choice(["panicerr", "panicstr", "nilmap", "errorf"])
+            kv["failkind"] = rng.choice(["panicerr", "panicstr", "nilmap", "errorf", "errunhash", "panicunhash", "paniclong", "panicint", "timefail", "timeerr"])
         if rng.random() < 0.15:
             kv["combine"] = 1
         return "cli " + " ".join("%s=%s" % (k, v) for k, v in kv.items())
@@ -495,7 +495,10 @@ def cli_corpus():
         c(mode="constant", dur=hx("450ms"), conc=30, rate=hx("4/100ms"), dist=none, exact=1, leakcheck=1),
         c(mode="users", dur=d200, conc=3, bodyms=5, leakcheck=1),                                                   # nothing of the command remains after it returned
         c(mode="constant", dur=d200, conc=3, rate=hx("3/50ms"), dist=none, leakcheck=1, failevery=2),
-        c(mode="users", dur=hx("900ms"), conc=10500, bodyms=400, expectfull=1),                                      # every one of 10 500 users runs
+        c(mode="users", dur=hx("900ms"), conc=10500, bodyms=400, expectfull=1),
+        c(mode="users", dur=hx("600ms"), conc=101, bodyms=250, expectfull=1),                                       # one more than a round number of users
+        c(mode="users", dur=hx("600ms"), conc=250, bodyms=250, expectfull=1),
+        c(mode="users", dur=hx("4s"), conc=2, bodyms=20, sigint=300),                                               # Ctrl-C long before max-duration                                      # every one of 10 500 users runs
         c(mode="file", fdur=6000, conc=2, maxit=3, bodyms=5, fstages="c:3000:5/100ms", retmax=1500),                 # the limit ends a config-file run at once
         c(mode="users", dur=d200, conc=2, bodyms=3, maxit=20, failevery=3, pushgw="ok", static=1),                  # what reaches the push gateway: counts and labels
         c(mode="constant", dur=hx("300ms"), conc=1, rate=hx("10/50ms"), dist=none, bodyms=30, igndrop=1, pushgw="fail1", static=1),
